@@ -57,15 +57,16 @@ type Result struct {
 
 // Run is the context an engine gets for one simulated execution.
 type Run struct {
-	T      *testing.T
-	Tape   *simrt.Tape
-	Sim    *simrt.Sim
-	Res    *Result
-	Eng    Engine
-	Detail bool // record full history / schedule (replay, shrink output)
-	hist   []string
-	hh     interface{ Write([]byte) (int, error) }
-	hsum   func() []byte
+	T         *testing.T
+	Tape      *simrt.Tape
+	Sim       *simrt.Sim
+	Res       *Result
+	Eng       Engine
+	Detail    bool // record full history / schedule (replay, shrink output)
+	nInjected int  // scripted errors returned so far (ErrInjected and ErrInjectedCanceled alternate)
+	hist      []string
+	hh        interface{ Write([]byte) (int, error) }
+	hsum      func() []byte
 }
 
 // Cfg draws a configuration/workload choice.
